@@ -183,10 +183,17 @@ Definition render_abstract (e : entry) : str :=
   | None => []
   | Some a => concat (map info_line (splitlines a))
   end.
-Fixpoint render_menu (host : str) (port : Z) (l : list entry) : result str :=
+(* writedir writes entry after entry: when an entry cannot be rendered the
+   bytes of the earlier ones are already on the wire.  Returns what was
+   written and the exception that cut it short, if any. *)
+Fixpoint render_menu (host : str) (port : Z) (l : list entry) : str * option exn :=
   match l with
-  | [] => Ok []
+  | [] => ([], None)
   | e :: r =>
-      bind (render_line host port e) (fun ln =>
-      bind (render_menu host port r) (fun rest => Ok (ln ++ render_abstract e ++ rest)))
+      match render_line host port e with
+      | Raise x => ([], Some x)
+      | Ok ln =>
+          let '(rest, x) := render_menu host port r in
+          (ln ++ render_abstract e ++ rest, x)
+      end
   end.
